@@ -156,6 +156,13 @@ class VecV:
         return "Vec<%s; len=%s>" % (fmt(self.content), fmt(self.len.e))
 
 
+def fn_key(v):
+    """(path,) or (path, const-generic arguments): two instances of one generic function that differ in a const argument are two
+    functions with two addresses (return_const::<true> / return_const::<false>)."""
+    cs = tuple(str(g[1]) for g in (v.gargs or ()) if isinstance(g, tuple) and len(g) == 2 and g[0] == "const")
+    return (v.path, cs) if cs else (v.path,)
+
+
 class FnVal:
     __slots__ = ("path", "gargs", "kind")
 
@@ -424,7 +431,7 @@ class Machine:
     MAX_STEPS = 400000
     LOOP_LIMIT = 2
 
-    def __init__(self, facts, summaries=(), models=None, stop_at=(), on_event=None, havoc_loops=False, split_on=()):
+    def __init__(self, facts, summaries=(), models=None, stop_at=(), on_event=None, havoc_loops=False, split_on=(), havoc_in=()):
         from . import models as modelmod
         self.facts = facts
         self.ptr_bits = facts.ptr_bits
@@ -438,6 +445,8 @@ class Machine:
         self.notes = []
         self.entered = set()
         self.havoc_loops = havoc_loops
+        self.havoc_in = frozenset(havoc_in)      # callees whose loops are havocked too when entered inline (a generic scanner around a closure)
+        self.loop_infos = {}
         self.loop_info = None
         self.split_on = frozenset(split_on)      # branch conditions that must stay separate paths (no if-conversion)
         self.drop_adts = {f["impl_of"]["self_ty"].get("path") for f in facts.fns.values()
@@ -535,17 +544,35 @@ class Machine:
                 return [st]
             if stop is not None and len(st.frames) < stop[0]:
                 return [st]
-            if self.havoc_loops and len(st.frames) == 1:
-                if self.loop_info is None:
-                    self.loop_info = self.compute_loop_info(fr.body)
-                if fr.block in self.loop_info:
-                    if fr.block in st.loops_entered:
+            if self.havoc_loops and (len(st.frames) == 1 or fr.fn in self.havoc_in):
+                root_ = len(st.frames) == 1
+                if root_:
+                    if self.loop_info is None:
+                        self.loop_info = self.compute_loop_info(fr.body)
+                    linfo = self.loop_info
+                else:
+                    if fr.fn not in self.loop_infos:
+                        self.loop_infos[fr.fn] = self.compute_loop_info(fr.body)
+                    linfo = self.loop_infos[fr.fn]
+                lkey = fr.block if root_ else (fr.fn, fr.block)
+                if fr.block in linfo:
+                    if lkey in st.loops_entered:
                         st.status = "backedge"
                         st.note = "back edge to bb%d" % fr.block
                         return [st]
-                    st.loops_entered = st.loops_entered | {fr.block}
+                    st.loops_entered = st.loops_entered | {lkey}
                     names = {d["place"]["l"]: d["name"] for d in fr.body["debug"] if not d["place"]["p"]}
-                    for l in sorted(self.loop_info[fr.block]):
+                    for l in sorted(linfo[fr.block]):
+                        cur_ = fr.locals[l].val
+                        if isinstance(cur_, ClosureV):
+                            # a closure that is only borrowed in the loop: if its body takes `&self` (an Fn closure) the loop cannot change
+                            # what it is or what it captured, so it stays the closure it was
+                            cb_ = self.facts.body(cur_.path)
+                            t1_ = cb_["locals"][1]["ty"] if cb_ and len(cb_["locals"]) > 1 else None
+                            if t1_ and t1_.get("k") == "ref" and not t1_.get("mut"):
+                                continue
+                            if cb_ and not closure_writes_its_captures(cb_):
+                                continue          # declared FnMut only because the receiving parameter asks for FnMut
                         ty = fr.body["locals"][l]["ty"]
                         fr.locals[l].val = self.sym_value(E("loopvar", (names.get(l, "_%d" % l),)), ty)
             st.steps += 1
@@ -698,10 +725,10 @@ class Machine:
                 return x
             raise _NoMerge()
         if isinstance(x, FnVal):
-            if x.path == y.path:
+            if fn_key(x) == fn_key(y):
                 return x
             w = self.ptr_bits
-            return Int(w, False, E("gamma", (c, E("fnaddr", (x.path,), w), E("fnaddr", (y.path,), w)), w))
+            return Int(w, False, E("gamma", (c, E("fnaddr", fn_key(x), w), E("fnaddr", fn_key(y), w)), w))
         if isinstance(x, IterV):
             if x.kind == y.kind:
                 return IterV(x.kind, self.merge_val(c, x.a, y.a) if x.a is not None else None,
@@ -817,6 +844,22 @@ class Machine:
         lv.cell.val = set_path(lv.cell.val, lv.path, val)
 
     def read_place(self, st, fr, place):
+        # table[flag as usize]: a read indexed by a value that is 0 or 1 (all bits above bit 0 are known zero) is the choice between
+        # the two elements
+        ps = place["p"]
+        if ps and ps[-1]["k"] == "index":
+            iv = fr.locals[ps[-1]["local"]].val
+            if isinstance(iv, Int) and not iv.is_const():
+                bits = iv.get_bits()
+                if isinstance(bits[0], E) and all(b == 0 for b in bits[1:]):
+                    def at(n):
+                        q = dict(place)
+                        q["p"] = list(ps[:-1]) + [{"k": "cindex", "offset": n, "from_end": False, "min_length": n + 1}]
+                        return self.read_lv(self.lv(st, fr, q))
+                    try:
+                        return self.merge_val(bits[0], at(1), at(0))
+                    except _NoMerge:
+                        pass
         lv = self.lv(st, fr, place)
         if lv.sym is not None and lv.ty is None:
             # type of the place from the projection chain, if known
@@ -858,6 +901,21 @@ class Machine:
             if ii:
                 return int_const(int(v["bits"]), ii[0], ii[1])
             if ty["k"] == "adt":
+                # a scalar constant of a crate newtype (struct with one scalar field, possibly nested): rebuild the struct around the value
+                def wrap(t, bits, depth=0):
+                    i2 = int_info(t, self.ptr_bits)
+                    if i2:
+                        return int_const(bits, i2[0], i2[1])
+                    a_ = self.facts.adts.get(t.get("path")) if t.get("k") == "adt" else None
+                    if a_ and len(a_["variants"]) == 1 and len(a_["variants"][0]["fields"]) == 1 and depth < 4 and not t.get("args_has_param"):
+                        f_ = a_["variants"][0]["fields"][0]
+                        inner = wrap(f_["ty"], bits, depth + 1)
+                        if inner is not None:
+                            return Adt(t["path"], 0, a_["variants"][0]["name"], [inner], [f_["name"]])
+                    return None
+                w_ = wrap(ty, int(v["bits"]))
+                if w_ is not None:
+                    return w_
                 return Opaque(E("const_adt", (op["s"],)), ty)
             raise Unsupported("int const of type " + ty["s"])
         if v["k"] == "zst":
@@ -889,8 +947,17 @@ class Machine:
             s = op["s"]
             if s in fr.gmap:
                 ii = int_info(ty, self.ptr_bits)
-                if ii and isinstance(fr.gmap[s], int):
-                    return int_const(fr.gmap[s], ii[0], ii[1])
+                gv = fr.gmap[s]
+                if ii and isinstance(gv, str):
+                    if gv in ("true", "false"):
+                        gv = 1 if gv == "true" else 0
+                    else:
+                        try:
+                            gv = int(gv.split("_")[0], 0)      # "5", "5_usize"
+                        except ValueError:
+                            pass
+                if ii and isinstance(gv, int):
+                    return int_const(gv, ii[0], ii[1])
         return Opaque(E("const", (op["s"],)), ty)
 
     def eval_const_body(self, key, fr):
@@ -1204,6 +1271,18 @@ class Machine:
             self.event(st, "indirect", "indirect", [f] + args, ret, span)
             return self.finish_call(st, fr, t, dest_lv, ret)
         name, gargs, local = self.callee_name(c)
+        if not c.get("resolved") and gargs and self.facts.body(name) is None and "::" in name:
+            # a trait method called on a type parameter (`Self::m(..)` inside a provided trait method): the frame knows which type the
+            # parameter stands for, so the call goes to that type's impl
+            g0 = gargs[0]
+            t0 = g0.get("ty") if isinstance(g0, dict) else None
+            if t0 and t0.get("k") == "param":
+                t0 = fr.gmap.get(t0.get("name"))
+            if isinstance(t0, dict) and t0.get("k") == "adt":
+                trait_, meth_ = name.rsplit("::", 1)
+                cand = "<%s as %s>::%s" % (t0["path"], trait_, meth_)
+                if self.facts.body(cand) is not None:
+                    name, local, gargs = cand, True, gargs[1:]
         # closures called through Fn* traits
         if name in ("std::ops::FnMut::call_mut", "std::ops::FnOnce::call_once", "std::ops::Fn::call") and args:
             f = args[0]
@@ -1433,7 +1512,15 @@ class Machine:
         if k == "discr":
             v = self.read_place(st, fr, rv["place"])
             if isinstance(v, Adt):
-                return int_const(v.variant, self.ptr_bits, True)
+                # the discriminant *value*: for a crate enum with explicit discriminants (`Movk = 0b11`) it differs from the variant index
+                a_ = self.facts.adts.get(v.path)
+                dv = None
+                if a_ and v.variant < len(a_["variants"]):
+                    dv = a_["variants"][v.variant].get("discr")
+                val = v.variant if dv is None else int(dv)
+                if val >= 1 << (self.ptr_bits - 1):
+                    val -= 1 << 128 if val >= 1 << 127 else 0        # negative discriminants are exported as u128
+                return int_const(val & ((1 << self.ptr_bits) - 1), self.ptr_bits, True)
             if isinstance(v, Opaque):
                 return Int(self.ptr_bits, True, E("discr", (v.e,), self.ptr_bits))
             raise Unsupported("discriminant of %r" % (v,))
@@ -1498,7 +1585,7 @@ class Machine:
                 return v
             if isinstance(v, FnVal):
                 if kind.startswith("PointerExposeProvenance") or (ii and ty["k"] in ("int", "uint")):
-                    return Int(self.ptr_bits, False, E("fnaddr", (v.path,), self.ptr_bits))
+                    return Int(self.ptr_bits, False, E("fnaddr", fn_key(v), self.ptr_bits))
                 return v
             if isinstance(v, (Ref, SliceRef, SymSlice)):
                 if ii and ty["k"] in ("int", "uint"):
@@ -1589,6 +1676,24 @@ class CallCtx:
         self.dest_ty = dest_ty
         self.span = span
         self.dest_lv = dest_lv
+
+
+def closure_writes_its_captures(body):
+    """Does the closure body assign to, or mutably borrow, anything reached through its own environment (local 1)?"""
+    def on_env(place):
+        return place is not None and place.get("l") == 1
+    for blk in body["blocks"]:
+        for st_ in blk["stmts"]:
+            if st_.get("k") == "assign":
+                if on_env(st_.get("place")):
+                    return True
+                rv = st_.get("rv") or {}
+                if rv.get("k") in ("ref", "rawptr") and rv.get("mut") and on_env(rv.get("place")):
+                    return True
+        t = blk["term"]
+        if t.get("k") == "call" and on_env(t.get("dest")):
+            return True
+    return False
 
 
 class Enter:
